@@ -264,6 +264,55 @@ def _fork_inherits(ctx, rep, base):
         lk.release()
 
 
+def _fallback_lock(ctx, rep, base):
+    """platforms without flock / msvcrt: the O_EXCL existence lock — exclusion, timeout, and a lock file abandoned by a dead holder
+    (older than timeout × the stale factor) is broken, a younger one is not"""
+    import time as _time
+    import datashard.file_lock as flm
+    from datashard.file_lock import FileLock
+    saved = (flm.FCNTL_AVAILABLE, flm.MSVCRT_AVAILABLE)
+    flm.FCNTL_AVAILABLE = flm.MSVCRT_AVAILABLE = False
+    d = os.path.join(base, "fallback")
+    os.makedirs(d)
+    try:
+        a, b = FileLock(os.path.join(d, "x.lock"), timeout=0.2), FileLock(os.path.join(d, "x.lock"), timeout=0.2)
+        a.acquire()
+        rep.evaluations += 1
+        try:
+            b.acquire()
+            rep.violate("C19:flock-two-holders", "existence lock: second instance acquired while the first holds it", {"kind": "fallback", "case": "exclusion"})
+            b.release()
+        except TimeoutError:
+            pass
+        a.release()
+        b.acquire()
+        b.release()
+        for age_factor, must_break in ((50.0, True), (0.5, False)):
+            path = os.path.join(d, f"dead{int(age_factor)}.lock")
+            open(path, "w").write("99999")          # left behind by a holder that died
+            timeout = 0.2
+            old = _time.time() - timeout * FileLock._STALE_FACTOR * age_factor
+            os.utime(path, (old, old))
+            lk = FileLock(path, timeout=timeout)
+            rep.evaluations += 1
+            rep.nontrivial(["fallback-stale", age_factor])
+            got = None
+            try:
+                lk.acquire()
+                got = True
+                lk.release()
+            except TimeoutError:
+                got = False
+            case = {"kind": "fallback", "case": "abandoned lock file", "age_over_stale_threshold": age_factor}
+            if must_break and not got:
+                rep.violate("C19:abandoned-lock-never-broken", f"existence lock: a lock file {age_factor}× older than the stale threshold, left by a dead holder, "
+                            f"still blocks (TimeoutError): the table can never be committed to again", case)
+            if not must_break and got:
+                rep.violate("C19:flock-two-holders", "existence lock: a lock file younger than the stale threshold was broken", case)
+    finally:
+        flm.FCNTL_AVAILABLE, flm.MSVCRT_AVAILABLE = saved
+
+
 def _flock_gap(ctx, rep, base):
     """the gap INSIDE one attempt: an acquirer that has opened the lock file but not yet flock()ed it, while others release / acquire.
     Every placement of {holder releases, third party acquires, holder re-acquires} inside that gap; at no point two holders."""
@@ -587,6 +636,7 @@ def run(ctx, model_ok):
         _stress(ctx, rep, base)
         _flock_gap(ctx, rep, base)
         _fork_inherits(ctx, rep, base)
+        _fallback_lock(ctx, rep, base)
         _s3_timeout_bound(ctx, rep, model_ok)
         try:
             _s3_case(ctx, rep, rng, model_ok, -1, directed=RELEASE_SPANS_TAKEOVER)
